@@ -259,6 +259,12 @@ class DictDecoder:
         """
         # xs:anyAttributes get it out of the way, it's the mapping exception!
         if var.is_attributes:
+            if not isinstance(value, dict):
+                raise ParserError(
+                    f"Invalid value for {meta.clazz.__qualname__}.{var.name}, "
+                    f"expected an object"
+                )
+
             return dict(value)
 
         # Repeating element, recursively bind the values
@@ -313,6 +319,12 @@ class DictDecoder:
         if var.any_type or var.is_wildcard:
             # field can support any object return the value as it is
             return value
+
+        if isinstance(value, list) and any(val is None for val in value):
+            raise ParserError(
+                f"Invalid value for {meta.clazz.__qualname__}.{var.name}, "
+                f"a list of tokens can't include null"
+            )
 
         value = converter.serialize(value)
 
